@@ -866,3 +866,129 @@ class DatasetDimsSetter(Contract):
 
     def canaries(self, S, case, env, result):
         yield "first-axis-is-empty", S.n(env["ds"].axes[0].values) == 0
+
+
+def _locatemany_stub():
+    from dverif.stubs import stub_of
+    from . import indexing as ix
+    return stub_of(ix.LocateMany, also=("dimarray.core.bases", "dimarray.core.align", "dimarray.dataset"))
+
+
+class DatasetReindexAxis(Contract):
+    """ds.reindex_axis(new, axis='x', fill_value, raise_error, method) on a Dataset a(x), b(x, y), c(y): a new Dataset with the
+    same variables; the x axis is exactly `new` (same order, repeats kept); every variable that has x holds, at new[k], the
+    operand variable's slice at that label when the label exists and the fill (NaN unless given) otherwise -- with
+    method='left' / 'right' instead the slice of the neighbour in sorted order that searchsorted designates --, i.e. exactly
+    the clauses of DimArray.reindex_axis (ReindexAxis, C07) for that variable; raise_error=True raises IndexError iff some
+    label is missing and nothing else raises; the variable without x and the y axis are unchanged; the result satisfies the
+    shared-axes invariant; dataset and variable metadata are carried over; the operand dataset is untouched.  [C14]"""
+    target = "dimarray.dataset:Dataset.reindex_axis"
+    props = ("C14",)
+    uses = (_locatemany_stub(),)
+    inlined = ("Dataset.take_axis", "AbstractAxis.loc (array branch)", "reduce_axis", "Axis.__setitem__", "DimArray.put -> _setitem (own contracts, C03)",
+               "Dataset.__getitem__", "Dataset.__setitem__ (own contract: DatasetSetItem, C13)", "DimArray.reindex_axis (own contract: ReindexAxis, C07) where the code calls it")
+    max_paths = 1500
+
+    def cases(self, tier):
+        for given in ("ndarray", "Axis"):
+            for by in (("name", "position") if given == "ndarray" else ("name",)):
+                for method in (None, "left", "right"):
+                    for raise_error in (False, True):
+                        if raise_error and (method or by == "position"):
+                            continue
+                        if given == "Axis" and (method or raise_error):
+                            continue
+                        yield {"name": "%s-axis_by_%s-method_%s-%s" % (given, by, method, "raise" if raise_error else "fill"), "given": given, "by": by,
+                               "method": method, "raise_error": raise_error}
+        yield {"name": "ndarray-axis_by_name-method_None-fill_value_given", "given": "ndarray", "by": "name", "method": None, "raise_error": False, "fill_given": True}
+
+    bound_names = ("ds.x.n", "ds.y.n", "new.n")
+
+    def setup(self, S, case):
+        from dverif.stubs import stub_of
+        ds, labels = make_dataset(S, "a(x),b(x,y),c(y)")
+        for k in ("a", "b", "c"):
+            _var(ds, k).attrs["units"] = "K"
+        new = S.array1d("new", "f")
+        given = new if case["given"] == "ndarray" else S.da.Axis(new, "x")
+        kw = {}
+        if case["given"] == "ndarray":
+            kw["axis"] = "x" if case["by"] == "name" else 0
+        if case["method"]:
+            kw["method"] = case["method"]
+        if case["raise_error"]:
+            kw["raise_error"] = True
+        fill = None
+        if case.get("fill_given"):
+            fill = S.real("fill")
+            kw["fill_value"] = fill
+        return {"ds": ds, "labels": labels, "snap": snapshot_ds(S, ds), "new": new, "given": given, "kwargs": kw, "fill": fill}
+
+    def call(self, fn, env):
+        return env["ds"].reindex_axis(env["given"], **env["kwargs"])
+
+    def _missing(self, S, env, k):
+        from .common import absent
+        return absent(S, env["labels"]["x"], S.at(env["new"], k))
+
+    def raises(self, S, case, env):
+        if case["raise_error"]:
+            return {IndexError: S.exists(0, S.n(env["new"]), lambda k: self._missing(S, env, k))}
+        return {IndexError: False}
+
+    def post(self, S, case, env, result):
+        ds, labels, snap, new = env["ds"], env["labels"], env["snap"], env["new"]
+        X, Y = labels["x"], labels["y"]
+        nx, ny, m = S.n(X), S.n(Y), S.n(new)
+        yield "returns-a-new-dataset", type(result) is type(ds) and result is not ds
+        ok = list(dict.keys(result)) == ["a", "b", "c"] and [ax.name for ax in result.axes] == ["x", "y"]
+        yield "same-variables-and-dimensions-in-order", ok
+        if not ok:
+            return
+        for c in ds_inv(S, result):
+            yield c
+        Xr, Yr = result.axes["x"].values, result.axes["y"].values
+        yield "x-is-exactly-the-new-labels", S.land(S.n(Xr) == m, S.forall(0, m, lambda k: S.implies(k < S.n(Xr), lambda: S.at(Xr, k) == S.at(new, k))))
+        yield "y-labels-unchanged", S.land(S.n(Yr) == ny, S.forall(0, ny, lambda j: S.implies(j < S.n(Yr), lambda: S.at(Yr, j) == S.at(Y, j))))
+        a, b, c = _var(result, "a"), _var(result, "b"), _var(result, "c")
+        a0, b0, c0 = snap["data"]["a"], snap["data"]["b"], snap["data"]["c"]
+        ok = tuple(a.dims) == ("x",) and tuple(b.dims) == ("x", "y") and tuple(c.dims) == ("y",)
+        yield "dims-of-the-variables-kept", ok
+        if not ok:
+            return
+        yield "shapes", S.land(S.n(a.values) == m, S.shape(b.values)[0] == m, S.shape(b.values)[1] == ny)
+        method = case["method"]
+        if method != "right":
+            yield "a:present-labels-keep-their-cell", S.forall(0, m, lambda k: S.forall(0, nx, lambda p: S.implies(
+                S.at(X, p) == S.at(new, k), lambda: S.same(S.at(a.values, k), S.at(a0, p)))))
+            yield "b:present-labels-keep-their-slice", S.forall_nd([m, ny], lambda k, j: S.forall(0, nx, lambda p: S.implies(
+                S.at(X, p) == S.at(new, k), lambda: S.same(S.at(b.values, k, j), S.at(b0, p, j)))))
+        if method is None:
+            if env["fill"] is not None:
+                isfill = lambda v: S.same(v, env["fill"])
+            else:
+                isfill = lambda v: S.isnan(v)
+            yield "a:missing-labels-are-filled", S.forall(0, m, lambda k: S.implies(self._missing(S, env, k), lambda: isfill(S.at(a.values, k))))
+            yield "b:missing-labels-are-filled", S.forall_nd([m, ny], lambda k, j: S.implies(self._missing(S, env, k), lambda: isfill(S.at(b.values, k, j))))
+        else:
+            strict = method == "right"
+            above = (lambda u, v: u > v) if strict else (lambda u, v: u >= v)
+
+            def neighbour(k, p):
+                x = S.at(new, k)
+                is_next = S.land(above(S.at(X, p), x), S.forall(0, nx, lambda i: S.implies(above(S.at(X, i), x), lambda: S.at(X, i) >= S.at(X, p))))
+                is_last = S.land(S.forall(0, nx, lambda i: S.lnot(above(S.at(X, i), x))), S.forall(0, nx, lambda i: S.at(X, i) <= S.at(X, p)))
+                return S.lor(is_next, is_last)
+            yield "a:neighbour-in-sorted-order-as-searchsorted", S.forall(0, m, lambda k: S.forall(0, nx, lambda p: S.implies(
+                neighbour(k, p), lambda: S.same(S.at(a.values, k), S.at(a0, p)))))
+            yield "b:neighbour-in-sorted-order-as-searchsorted", S.forall_nd([m, ny], lambda k, j: S.forall(0, nx, lambda p: S.implies(
+                neighbour(k, p), lambda: S.same(S.at(b.values, k, j), S.at(b0, p, j)))))
+        yield "c:variable-without-the-axis-unchanged", S.land(S.n(c.values) == ny, S.forall(0, ny, lambda j: S.same(S.at(c.values, j), S.at(c0, j))))
+        yield "variable-metadata-carried-over", all(dict(v.attrs) == {"units": "K"} for v in (a, b, c))
+        yield "dataset-metadata-carried-over", dict(result.attrs) == snap["attrs"]
+        yield "no-axis-object-shared-with-the-operand", all(ax is not bx for ax in result.axes for bx in snap["axes"])
+        for cl in unchanged_ds(S, ds, snap):
+            yield ("operand:" + cl[0],) + tuple(cl[1:])
+
+    def canaries(self, S, case, env, result):
+        yield "result-has-no-x-labels", S.n(result.axes["x"].values) == 0
